@@ -91,17 +91,20 @@ func runC07(e *Engine, res *EpisodeResult) {
 	got := e.Results[0]
 	cs := p.Ctxs[0]
 	res.Case = p.Notes["prog"] + "|" + p.Shape + "|" + cs.Kind
-	if len(got) <= iRunA {
-		res.Inconclusive = "run under test did not complete"
-		if e.CapHit {
-			for _, r := range e.runs {
-				if r.Cancelled && !r.Returned {
-					e.violate("C07.prompt", "context cancelled at decision %d (VM at step %d, %s) but the call had not returned when the step cap (%d decisions) was reached; %d instructions executed after the cancellation",
-						r.CancelDecision, r.CancelAtSteps, r.CancelWhere, e.maxDecisions, r.Steps-r.CancelAtSteps)
-					res.Inconclusive = ""
-				}
+	if e.CapHit {
+		// the step cap ended the episode: a cancelled call that has not returned by
+		// then violates the bound whatever the teardown made of it afterwards
+		for _, r := range e.runs {
+			if r.Cancelled && !r.Returned {
+				e.violate("C07.prompt", "context cancelled at decision %d (VM at step %d, %s) but the call had not returned when the step cap (%d decisions) was reached; %d instructions executed after the cancellation",
+					r.CancelDecision, r.CancelAtSteps, r.CancelWhere, e.maxDecisions, r.Steps-r.CancelAtSteps)
+				res.Nontrivial = true
+				return
 			}
 		}
+	}
+	if len(got) <= iRunA {
+		res.Inconclusive = "run under test did not complete"
 		return
 	}
 	ra := got[iRunA]
